@@ -146,6 +146,11 @@ def run(ctx, drv, prop="C01"):
     for cfg in long_cfgs:
         check_run(ctx, cfg, [cfg["size"] * rng.choice([40, 70])], ask, prop)
         ctx.count("long_runs")
+    # restarts: NSGA-II with an epsilon-box archive and a time-continuation extension with short windows -- every few steps archive
+    # members are mutated, evaluated *outside* iterate() and injected into population and archive (extensions.py)
+    for cfg in runs.gen_configs(rng, 10 if ctx.quick() else 150, names=["NSGAII+restarts"], sizes=(5, 6, 8), evaluators=("map", "pickle")):
+        check_run(ctx, cfg, [cfg["size"] * rng.choice([20, 30])], ask, prop)
+        ctx.count("runs_with_forced_restarts")
     # particle swarms with small leader archives: truncation of leaders interacts with personal bests only after many steps
     pso = runs.gen_configs(rng, 120 if ctx.quick() else 1500, names=["OMOPSO", "SMPSO"], sizes=(6, 8, 12), evaluators=("map",),
                            nobjs_choices=(2, 2, 3), constrained_rate=0.2)
